@@ -560,6 +560,11 @@ class Auditor:
                 return ("index", "RangeFull never panics")
             # RangeTo / Range whose end is min(len(base), ..)
             ends = self.range_ends(body, idx)
+            # a str may only be cut on a character boundary: being in range is not enough (`&s[..s.len().min(64)]` panics inside
+            # a multi-byte character), so for str only positions known to be boundaries count (handled above: str::find results)
+            is_str = re.search(r"(^|[^\w])(str|String)$", (c.self_ty or "").replace("&", "").strip()) is not None or (c.self_ty or "") in ("str", "std::string::String")
+            if is_str:
+                ends = None
             if ends is not None:
                 base_len = self.len_of_arg(body, c.args[0], iv, c.bb)
                 okk = True
